@@ -182,13 +182,26 @@ def check_receive(ck: Check) -> None:
         problems.append("magic_read is not reset")
     if not (len(ln_store) == 1 and ln_store[0].value == C(None)):
         problems.append("len is not reset")
-    if not (len(rec) == 1 and rec[0].term[2] == (C(b""),)):
-        problems.append("no re-entry `self.receive(b'')` (a second message in the same read would be stuck until more data arrives)")
+    recursion = len(rec) == 1 and rec[0].term[2] == (C(b""),)
+    looped = False
+    if not recursion and not rec:
+        # equivalent idiom: all stages inside one `while True:` whose only exits lie outside the body stage
+        import ast as _ast
+        for n in _ast.walk(summ.fi.node):
+            if isinstance(n, _ast.While) and isinstance(n.test, _ast.Constant) and n.test.value is True:
+                ids = {id(x) for x in _ast.walk(n)}
+                if all(any(e.stmt_id in ids for e in st_[1]) for st_ in stages):
+                    body_if = [x for x in _ast.walk(n) if isinstance(x, _ast.If) and any(e.stmt_id == id(x) for e in body)]
+                    exits_in_body = [y for bi in body_if for part in bi.body for y in _ast.walk(part) if isinstance(y, (_ast.Break, _ast.Return))]
+                    has_exit = any(isinstance(y, (_ast.Break, _ast.Return)) for y in _ast.walk(n))
+                    looped = not exits_in_body and has_exit
+    if not (recursion or looped):
+        problems.append("no re-entry `self.receive(b'')` or enclosing drain loop (a second message in the same read would be stuck until more data arrives)")
     if not problems:
-        order = [disp[0].seq, bf_store[0].seq, ln_store[0].seq, rec[0].seq]
-        if not (bf_store[0].seq < ln_store[0].seq and max(mr_store[0].seq, ln_store[0].seq, bf_store[0].seq) < rec[0].seq and disp[0].seq < rec[0].seq):
+        last = rec[0].seq if recursion else max(e.seq for e in body) + 1
+        if not (bf_store[0].seq < ln_store[0].seq and max(mr_store[0].seq, ln_store[0].seq, bf_store[0].seq) < last and disp[0].seq < last):
             problems.append("resets / advance / re-entry are out of order")
-        if any(len(e.pc) != 1 for e in (disp[0], bf_store[0], ln_store[0], mr_store[0], rec[0])):
+        if any(len(e.pc) != 1 for e in [disp[0], bf_store[0], ln_store[0], mr_store[0]] + (rec[:1] if recursion else [])):
             problems.append("some of them are conditional")
     if problems:
         ck.violated("P5", construct, "; ".join(problems), where)
